@@ -188,6 +188,18 @@ func linTerms(v ssa.Value) (map[ssa.Value]int64, int64) {
 // of the id with constants, negation, and the phi of a short-circuit && / || (an incoming edge counts only if the
 // branch it comes from can go that way under the same assumption). known=false when the value depends on anything else.
 func foldCond(v ssa.Value, isID func(ssa.Value) bool, id int64, depth int) (val, known bool) {
+	return foldCondV(v, func(x ssa.Value) (int64, bool) {
+		if isID(x) {
+			return id, true
+		}
+		return 0, false
+	}, depth)
+}
+
+// foldCondV: like foldCond for several assumed values at once (valOf gives the assumed value of an SSA value).
+func foldCondV(v ssa.Value, valOf func(ssa.Value) (int64, bool), depth int) (val, known bool) {
+	isID := func(x ssa.Value) bool { _, ok := valOf(x); return ok }
+	idOf := func(x ssa.Value) int64 { n, _ := valOf(x); return n }
 	if depth > 10 || v == nil {
 		return false, false
 	}
@@ -198,7 +210,7 @@ func foldCond(v ssa.Value, isID func(ssa.Value) bool, id int64, depth int) (val,
 		}
 	case *ssa.UnOp:
 		if x.Op == token.NOT {
-			if b, ok := foldCond(x.X, isID, id, depth+1); ok {
+			if b, ok := foldCondV(x.X, valOf, depth+1); ok {
 				return !b, true
 			}
 		}
@@ -230,6 +242,10 @@ func foldCond(v ssa.Value, isID func(ssa.Value) bool, id int64, depth int) (val,
 				return false, false
 			}
 			_ = l
+			id := idOf(stripConv(b))
+			if l == b {
+				id = idOf(stripConv(a))
+			}
 			switch o { // L o id
 			case token.LSS:
 				if id <= 0 {
@@ -261,6 +277,7 @@ func foldCond(v ssa.Value, isID func(ssa.Value) bool, id int64, depth int) (val,
 		if !isID(stripConv(a)) {
 			return false, false
 		}
+		id := idOf(stripConv(a))
 		switch op {
 		case token.EQL:
 			return id == c, true
@@ -279,10 +296,10 @@ func foldCond(v ssa.Value, isID func(ssa.Value) bool, id int64, depth int) (val,
 		seenT, seenF := false, false
 		for i, e := range x.Edges {
 			// is the edge pred -> phi block feasible?
-			if !edgeFeasible(x.Block().Preds[i], x.Block(), isID, id, depth+1, 0) {
+			if !edgeFeasibleV(x.Block().Preds[i], x.Block(), valOf, depth+1, 0) {
 				continue
 			}
-			ev, ok := foldCond(e, isID, id, depth+1)
+			ev, ok := foldCondV(e, valOf, depth+1)
 			if !ok {
 				return false, false
 			}
@@ -301,7 +318,7 @@ func foldCond(v ssa.Value, isID func(ssa.Value) bool, id int64, depth int) (val,
 
 // edgeFeasible: the branch at the end of pred can go to blk under the assumption, and pred itself can be entered
 // (looked at up to three blocks back, which covers the blocks of a short-circuit expression; beyond that: feasible).
-func edgeFeasible(pred, blk *ssa.BasicBlock, isID func(ssa.Value) bool, id int64, depth, back int) bool {
+func edgeFeasibleV(pred, blk *ssa.BasicBlock, valOf func(ssa.Value) (int64, bool), depth, back int) bool {
 	can := false
 	for si, s := range pred.Succs {
 		if s != blk {
@@ -312,7 +329,7 @@ func edgeFeasible(pred, blk *ssa.BasicBlock, isID func(ssa.Value) bool, id int64
 			can = true
 			continue
 		}
-		if cv, ck := foldCond(cond, isID, id, depth+1); !ck || cv == truth {
+		if cv, ck := foldCondV(cond, valOf, depth+1); !ck || cv == truth {
 			can = true
 		}
 	}
@@ -323,11 +340,23 @@ func edgeFeasible(pred, blk *ssa.BasicBlock, isID func(ssa.Value) bool, id int64
 		return true
 	}
 	for _, pp := range pred.Preds {
-		if pp == pred || edgeFeasible(pp, pred, isID, id, depth+1, back+1) {
+		if pp == pred || edgeFeasibleV(pp, pred, valOf, depth+1, back+1) {
 			return true
 		}
 	}
 	return false
+}
+
+// foldedEdgesV: edge filter for a valuation of several values.
+func foldedEdgesV(valOf func(ssa.Value) (int64, bool)) func(b *ssa.BasicBlock, si int) bool {
+	return func(b *ssa.BasicBlock, si int) bool {
+		cond, truth, ok := core.IfEdge(b, si)
+		if !ok {
+			return true
+		}
+		v, known := foldCondV(cond, valOf, 0)
+		return !known || v == truth
+	}
 }
 
 // foldedEdges: an edge filter that follows only the branches consistent with the id having the given value.
